@@ -272,7 +272,7 @@ def run(pid, tier, seed):
             continue
         ev.stat("status:%s" % solvelib.ST.get(s1, s1))
         definitive = ("1", "2", "3")
-        if s1 != s2 and not (s1 in definitive and s2 in definitive) and extreme(lp, lp2):
+        if s1 != s2 and not (s1 in definitive and s2 in definitive) and lpfam.wide_range(lp, lp2):
             # one formulation got no answer at all (not a different one) on data of 10^+-40 magnitude: the precision
             # ladder's absolute tolerances do not reach that far (DESIGN.md 11, false alarms); counted, not a violation
             ev.stat("non-definitive on extreme-magnitude data")
